@@ -4,7 +4,7 @@
 From Coq Require Import NArith List Bool.
 Import ListNotations.
 From CXV Require Import Gen.TokTy Parse.Balanced Parse.BalancedThms Parse.Declarator Parse.DeclSpec Parse.DeclThms Parse.DeclPins.
-From CXV Require Import Parse.EnumList.
+From CXV Require Import Parse.EnumList Parse.Specs Parse.VarStmt.
 From CXV Require Import Parse.Fold Parse.FoldThms Parse.FoldPlace.
 Open Scope N_scope.
 
@@ -20,6 +20,44 @@ Theorem one_entry_per_declarator_partial : forall b c v (ts : list (ty * N)) res
                   ++ ktok SEMI :: rest))
      (DOk (map (fun p => (snd p, fst p)) ts, rest)).
 Proof. exact decls_roundtrip. Qed.
+
+(* Specifiers: the flags reported for a declaration are exactly the keywords
+   written around the type name -- before it, after it, in any order, repeated
+   or not (const volatile constexpr extern inline static explicit virtual
+   mutable; __inline and __forceinline count as inline). *)
+Theorem specifiers_decode_partial : forall pre post n rest,
+  forallb spec_kw pre = true -> forallb spec_kw post = true -> spec_stop rest = true ->
+  parse_specs (kw_toks pre ++ nm_tok n :: kw_toks post ++ rest)
+  = DOk (apply_kws post (apply_kws pre mods0), n, rest).
+Proof. exact specs_decode_lemma. Qed.
+
+Theorem specifier_order_irrelevant : forall ks ks',
+  forallb spec_kw ks = true -> Permutation.Permutation ks ks' -> apply_kws ks mods0 = apply_kws ks' mods0.
+Proof. exact specifier_order_irrelevant_lemma. Qed.
+
+Theorem specifier_flags_are_memberships : forall ks m, forallb spec_kw ks = true ->
+  m_const (apply_kws ks m) = (m_const m || has T_const ks) /\ m_volatile (apply_kws ks m) = (m_volatile m || has T_volatile ks) /\
+  m_constexpr (apply_kws ks m) = (m_constexpr m || has T_constexpr ks) /\ m_extern (apply_kws ks m) = (m_extern m || has T_extern ks) /\
+  m_inline (apply_kws ks m) = (m_inline m || (has T_inline ks || has T___inline ks || has T___forceinline ks)) /\
+  m_static (apply_kws ks m) = (m_static m || has T_static ks) /\ m_explicit (apply_kws ks m) = (m_explicit m || has T_explicit ks) /\
+  m_virtual (apply_kws ks m) = (m_virtual m || has T_virtual ks) /\ m_mutable (apply_kws ks m) = (m_mutable m || has T_mutable ks).
+Proof. exact apply_kws_fields. Qed.
+
+(* A whole variable statement `spec* T spec* d1, ..., dn;` at namespace scope:
+   the flags of the keywords written, const / volatile on the base type of
+   every declarator, one entry per declarator in source order. *)
+Theorem variable_statement_decodes_partial : forall pre post b items rest,
+  forallb spec_kw pre = true -> forallb spec_kw post = true ->
+  has T_explicit (pre ++ post) = false -> has T_virtual (pre ++ post) = false -> has T_mutable (pre ++ post) = false ->
+  items <> [] ->
+  Forall (fun it => legalL KB (fst it) = true /\ Forall layer_ok (fst it) /\ kind_end KB (fst it) <> KFn) items ->
+  ev (fun f => var_stmt (length items) f
+                 (kw_toks pre ++ nm_tok b :: kw_toks post ++
+                  join_comma (map (fun it => P (fst it) [mkTk T_NAME (snd it)]) items) ++ ktok SEMI :: rest))
+     (DOk (apply_kws (pre ++ post) mods0,
+           map (fun it => (snd it, wrap (TBase b (m_const (apply_kws (pre ++ post) mods0)) (m_volatile (apply_kws (pre ++ post) mods0))) (fst it))) items,
+           rest)).
+Proof. exact var_stmt_roundtrip. Qed.
 
 (* A function declaration `R-declarator( name ( parameters ) )`: the reported
    return type, name, parameter list (types and names in order) and vararg
@@ -54,6 +92,10 @@ Proof. exact decl_sets_ok_true. Qed.
 
 Print Assumptions declarator_code_is_the_modelled_one.
 Print Assumptions one_entry_per_declarator_partial.
+Print Assumptions specifiers_decode_partial.
+Print Assumptions specifier_order_irrelevant.
+Print Assumptions specifier_flags_are_memberships.
+Print Assumptions variable_statement_decodes_partial.
 Print Assumptions function_declaration_decodes_partial.
 Print Assumptions enumerators_reported_exactly_partial.
 Print Assumptions items_land_where_written.
@@ -76,4 +118,11 @@ Proof. vm_compute. reflexivity. Qed.
 Example c01_enum_run :
   enum_list 3 [] (enum_body_toks [(1, None); (2, Some [mkTk 3 7; mkTk LP 0; mkTk 3 8; mkTk RP 0])] true ++ [ktok SEMI])
   = DOk ([(1, None); (2, Some [mkTk 3 7; mkTk LP 0; mkTk 3 8; mkTk RP 0])], [ktok SEMI]).
+Proof. vm_compute. reflexivity. Qed.
+
+Example c01_stmt_run :
+  var_stmt 2 40 (kw_toks [T_static; T_const] ++ nm_tok 5 :: kw_toks [T_constexpr] ++
+                 join_comma [P [LPtr true false] [mkTk T_NAME 1]; P [LArr [mkTk 3 9]] [mkTk T_NAME 2]] ++ [ktok SEMI])
+  = DOk (mkMods true false true false false true false false false,
+         [(1, TPtr (TBase 5 true false) true false); (2, TArr (TBase 5 true false) [mkTk 3 9])], []).
 Proof. vm_compute. reflexivity. Qed.
